@@ -191,8 +191,8 @@ def _handle_curly_braces_refs(df, refs, column_names):
             # column_name_brackets = f"{{{replacing_name}}}"
             # df[column_name] = pd.Series(x.replace(column_name_brackets, y) for x, y
             #                             in zip(df[column_name], saved_columns[replacing_name]))
-            new_df[column_name] = pd.Series(replace_ref(x, f"{{{replacing_name}}}", y) for x, y
-                                            in zip(new_df[column_name], saved_columns[replacing_name]))
+            new_df[column_name] = [replace_ref(x, f"{{{replacing_name}}}", y) for x, y
+                                   in zip(new_df[column_name], saved_columns[replacing_name])]
     new_df = new_df[remaining_columns]
 
     return new_df
